@@ -437,6 +437,9 @@ func genC18(c *Ctx) {
 		tok := encPos(p)
 		out := c.Emit("eval " + tok)
 		c.Count(absClass(out))
+		if over, _ := p.GameOver(); !over && inDomain {
+			c.Count("undecided, well-formed: " + absClass(out))
+		}
 		if inDomain {
 			c.Count("check.default=" + c.Emit("evalcheck default "+tok))
 		}
@@ -768,7 +771,7 @@ func junctionBoard(r *RNG, size int, c *Ctx) *tak.Position {
 }
 
 func genC19(c *Ctx) {
-	n := c.Scale(26000, 2600000)
+	n := c.Scale(12000, 2400000)
 	for k := 0; k < n; k++ {
 		size := 3 + c.R.Intn(6)
 		if c.R.Chance(1, 3) {
